@@ -246,11 +246,190 @@ def check_asm(item):
     return finish(res, st)
 
 
+# ---------------------------------------------------------------------------
+LONGW = 'Pneumonoultramicroscopicsilicovolcanoconiosis-and-then-some-more-characters-to-make-it-wider'
+SKOOL_CTLS = [
+    dict(ctl="""c 32768 Routine with a title long enough to be wrapped when the requested line width is small enough for that
+D 32768 First paragraph of the description, which runs on for a while so that it has to be wrapped on narrower lines.
+D 32768 Second paragraph with %s inside.
+R 32768 A Some input value described at length so that the register description needs more than one line
+R 32768 BC Short
+N 32768 Start comment that is also rather long and will need wrapping at most of the widths considered here.
+C 32768,2 A comment on the first instruction that is long enough to need continuation lines in the skool file
+M 32770,4 A comment spanning two instructions which together leave room for two lines only, so more lines follow them
+C 32770,1
+C 32771,3
+N 32774 Mid-block comment.
+C 32774,1 %s
+E 32768 End comment of the routine, long enough to wrap as well when the line is narrow.
+i 32775""" % (LONGW, LONGW), mem=[0x3E, 0x01, 0xAF, 0x21, 0x00, 0x80, 0xC9]),
+    dict(ctl="""b 32768 Data
+D 32768 Description.
+B 32768,4,2 Two rows of two bytes each with a shared comment that has to be spread over both rows and then some more
+T 32772,3 text
+W 32775,2 {braces} inside a comment that is fairly long, long enough for at least two lines at width forty
+i 32777""", mem=[1, 2, 3, 4, 65, 66, 67, 0x34, 0x12]),
+]
+
+
+def skool_words(ctl):
+    words = []
+    for line in ctl.split('\n'):
+        parts = line.split(None, 2)
+        if line[0] in 'DNERM' or line[0].islower():
+            text = parts[2] if len(parts) > 2 else ''
+        elif line[0] in 'BCTWS':
+            text = parts[2] if len(parts) > 2 else ''
+        else:
+            text = ''
+        if line[0] == 'i':
+            continue
+        words += text.split()
+    return words
+
+
+def check_skool(item):
+    """('skool', corpus index): sna2skool's SkoolWriter with a symbolic line width"""
+    _, ci = item
+    c = SKOOL_CTLS[ci]
+    st = Stats()
+    res = new_res()
+    import ctlpipe
+    name = 'sna2skool corpus[%d] symbolic line width' % ci
+    pipe = ctlpipe.Pipe()
+    import skoolkit.snaskool as ss
+    import skoolkit.ctlparser as cp
+    from skoolkit.config import get_config
+
+    def fn(path):
+        snap = [0] * 65536
+        snap[32768:32768 + len(c['mem'])] = c['mem']
+        parser = cp.CtlParser()
+        parser.parse_ctls([pipe._file(c['ctl'] + '\n', 'ctl')], 32768, 32768 + len(c['mem']) + 1)
+        o = ctlpipe.Opt()
+        lw = sym_int('line_width', 40, 200)
+        o.comments, o.line_width, o.base, o.case = False, lw, 10, 2
+        cfg = get_config('sna2skool')
+        cfg.update(ListRefs=0)
+        out = []
+        ss.write_line = out.append
+        ss.SkoolWriter(snap, parser, o, cfg).write_skool()
+        return lw, out
+
+    def on(p, outv):
+        res['obligations'] += 1
+        if isinstance(outv, tuple) and outv[0] == 'exception':
+            r, mod = p.check(model=True)
+            v = {str(x): mod[x].as_long() for x in mod.decls() if hasattr(mod[x], 'as_long')}
+            res['violations'].append(dict(key='%s:exception' % name, text='%s with %r raises %r' % (name, v, outv[1]), case=dict(kind='skool', ci=ci, vals=v)))
+            return
+        lw, lines = outv
+        words, bad = [], []
+        info = []
+        for ln in lines:
+            if ln.startswith(';'):
+                t = ln[1:].strip()
+                if t.startswith('. '):
+                    t = t[2:]             # continuation line of a register description
+                if t != '.':
+                    words += t.split()
+                info.append((ln, t))
+            elif ln.strip() == '' or ln.startswith('i'):
+                continue
+            else:
+                body = ln[7:] if ln[0] != ' ' or ln[1:6].strip() else ln.strip()
+                if ';' in ln:
+                    comment = ln[ln.index(';') + 1:].strip()
+                else:
+                    comment = ''
+                comment = comment.strip()
+                cw = comment
+                if cw.startswith('{') and not cw.startswith('{braces}'):
+                    cw = cw[1:]
+                if cw.endswith('}') and not cw.endswith('{braces}'):
+                    cw = cw[:-1]
+                words += cw.split()
+                info.append((ln, comment))
+        want = skool_words(c['ctl'])
+        if words != want:
+            k = next((i for i, (a, b) in enumerate(zip(words, want)) if a != b), min(len(words), len(want)))
+            bad.append('words differ from the control file at position %d: got %r..., control file %r...' % (k, words[k:k + 4], want[k:k + 4]))
+        diffs, names = [], []
+        for ln, comment in info:
+            n = len(ln)
+            lo, hi = rng(lw)
+            if n <= lo:
+                continue
+            if len(comment.split()) > 1:
+                diffs.append(bv(lw) < n); names.append('line of %d characters holding several words: %r' % (n, ln[:70]))
+        if bad:
+            r, mod = p.check(model=True); which = bad
+        else:
+            r, mod, which = p.check_any(diffs, names)
+        if r == 'unknown':
+            res['inconclusive'].append(name); return
+        if r == 'sat':
+            v = {str(x): mod[x].as_long() for x in mod.decls() if hasattr(mod[x], 'as_long')}
+            res['violations'].append(dict(key='%s:%s' % (name, which[0][:40]), text='%s with %r: %s' % (name, v, '; '.join(which[:3])), case=dict(kind='skool', ci=ci, vals=v)))
+            return
+        res['discharged'] += 1
+        res['nontrivial'] += 1
+        if len(res['samples']) < 1:
+            res['samples'].append({'item': name, 'lines': len(lines), 'longest': max(len(x) for x in lines), 'verdict': 'unsat for every width on this path'})
+
+    try:
+        explore(fn, stats=st, on_path=on, max_paths=5000)
+    except Inconclusive as e:
+        res['inconclusive'].append('%s: %s' % (name, e))
+    finally:
+        pipe.close()
+    return finish(res, st)
+
+
+def replay_skool(case):
+    import ctlpipe
+    import skoolkit.snaskool as ss
+    import skoolkit.ctlparser as cp
+    from skoolkit.config import get_config
+    c = SKOOL_CTLS[case['ci']]
+    lw = (case.get('vals') or {}).get('line_width', 79)
+    pipe = ctlpipe.Pipe()
+    try:
+        snap = [0] * 65536
+        snap[32768:32768 + len(c['mem'])] = c['mem']
+        parser = cp.CtlParser()
+        parser.parse_ctls([pipe._file(c['ctl'] + '\n', 'ctl')], 32768, 32768 + len(c['mem']) + 1)
+        o = ctlpipe.Opt()
+        o.comments, o.line_width, o.base, o.case = False, lw, 10, 2
+        cfg = get_config('sna2skool')
+        cfg.update(ListRefs=0)
+        out = []
+        ss.write_line = out.append
+        try:
+            ss.SkoolWriter(snap, parser, o, cfg).write_skool()
+        except Exception as e:
+            return True, 'raises %r' % e
+        bad = []
+        for ln in out:
+            comment = ln[ln.index(';') + 1:].strip() if ';' in ln else ''
+            if len(ln) > lw and len(comment.split()) > 1:
+                bad.append('line of %d > %d characters with several words: %r' % (len(ln), lw, ln[:70]))
+        text = ' '.join(x[x.index(';') + 1:] if ';' in x else '' for x in out)
+        for w in skool_words(c['ctl']):
+            if w.strip('{}') and w.strip('{}') not in text:
+                bad.append('word %r missing' % w); break
+        return bool(bad), '; '.join(bad[:3]) or 'skool file respects the width and keeps every word'
+    finally:
+        pipe.close()
+
+
 def work(item):
-    return check_asm(item)
+    return check_skool(item) if item[0] == 'skool' else check_asm(item)
 
 
 def replay(case):
+    if case.get('kind') == 'skool':
+        return replay_skool(case)
     import io
     import contextlib
     import skoolkit.skoolasm as asmmod
@@ -306,14 +485,17 @@ def main():
         print(('REPRODUCED: ' if ok else 'not reproduced: ') + detail)
         return 1 if ok else 0
     items = [('asm', ci, param) for ci in range(len(CORPUS)) for param in ('line-width', 'instruction-width', 'comment-width-min')]
+    items += [('skool', ci) for ci in range(len(SKOOL_CTLS))]
     if args.only:
         items = [i for i in items if args.only in harness.item_name(i)]
     rep = harness.Report(
         PROP, args,
         functions=['skoolkit.skoolasm.AsmWriter.write / print_instructions / format / print_comment_lines / print_registers / wrap', 'skoolkit.wrap (textwrap with break_long_words=False)',
-                   'skoolkit.skoolparser.SkoolParser (concrete text)', 'skoolkit.skoolutils.parse_address_comments / join_comments'],
+                   'skoolkit.skoolparser.SkoolParser (concrete text)', 'skoolkit.skoolutils.parse_address_comments / join_comments',
+                   'skoolkit.snaskool.SkoolWriter.write_skool / _write_body / _format_instruction_comments / wrap (symbolic line width)'],
         bounds={'corpus': '%d skool entries (long unbreakable words, multi-instruction comment groups, registers, paragraphs, end comments, operations wider than the instruction field)' % len(CORPUS),
-                'widths': 'line-width 40..200, instruction-width 5..40, comment-width-min 1..40: each symbolic in turn', 'outside': 'other texts (the bound is the corpus), skool2html, the skool file sna2skool writes, tables and lists, tab/CRLF settings'},
+                'widths': 'line-width 40..200, instruction-width 5..40, comment-width-min 1..40: each symbolic in turn', 'sna2skool': '%d annotated control files written as skool files with a symbolic line width 40..200 (words preserved in order; no line over the width with more than one word)' % len(SKOOL_CTLS),
+                'outside': 'other texts (the bound is the corpus), skool2html, tables and lists, tab/CRLF settings'},
         assumptions=[], stubs=['write_text and warn of skoolkit.skoolasm captured in lists'],
         rule='one case per feasible path = one maximal set of widths that wrap the corpus identically',
         explanation='The width parameters are symbolic: each path stands for all widths that make the same wrapping decisions; word preservation is checked concretely per path and the width bound by z3 over the path\'s width set.')
